@@ -1,7 +1,6 @@
 package main
 
 import (
-	"os"
 	"fmt"
 	"go/token"
 
@@ -373,9 +372,6 @@ func runC05(c *Ctx) {
 						continue
 					}
 					okOne := false
-					if os.Getenv("FFC_DBG") != "" {
-						fmt.Fprintf(os.Stderr, "DBG ret %s val %s cases %d\n", gs.posOf(k), rt.Results[0], len(gs.valueCases(rt.Results[0], k)))
-					}
 					for _, vc := range gs.valueCases(rt.Results[0], k) {
 						if is(vc.Val) {
 							okOne = true
@@ -477,24 +473,33 @@ func runC05(c *Ctx) {
 	isAct := func(n int) bool { return gs.Ins[n] != nil && m.callsTo(gs.Ins[n], pdtAct) && isKernelPDT(gs.callArgs(n)[0]) }
 	nnil := 0
 	bad = ""
-	for _, rn := range gs.Returns() {
-		if !isNilConst(gs.Ins[rn].(*ssa.Return).Results[0]) {
-			continue
+	var visErr []int
+	for n, in := range gs.Ins {
+		if m.callsTo(in, visitElf) {
+			visErr = append(visErr, n)
+		}
+	}
+	for _, rc := range gs.ReturnCases() {
+		// a return of nil: the constant, or a value that is known to be nil (or not
+		// known to be an error) on this path
+		v := rc.Vals[0]
+		facts := gs.CaseFacts(rc)
+		if !isNilConst(v) {
+			if hasFact(facts, func(f Fact) bool { return isNilFact(f, token.NEQ, func(x ssa.Value) bool { return x == v }) }) {
+				continue // an error return
+			}
+			if m.nonNilErrorGlobal(v) {
+				continue
+			}
 		}
 		nnil++
-		if ok, _ := gs.MustPassBefore(rn, isAct); !ok {
+		if !gs.CaseMustPassBefore(rc, isAct) {
 			bad = "setupPDTForKernel can return nil without activating the new address space"
 		}
 		// the visitor ran and its error was checked
-		var visErr []int
-		for n, in := range gs.Ins {
-			if m.callsTo(in, visitElf) {
-				visErr = append(visErr, n)
-			}
-		}
 		if len(visErr) != 1 {
 			bad = "the ELF sections are not visited exactly once"
-		} else if ok, _ := gs.MustPassBefore(rn, func(n int) bool { return n == visErr[0] }); !ok {
+		} else if !gs.CaseMustPassBefore(rc, func(n int) bool { return n == visErr[0] }) {
 			bad = "nil can be returned without visiting the ELF sections"
 		}
 	}
